@@ -33,3 +33,26 @@ Example C17_objects_example :
   let s := mrun (fun _ => [1; 2]%nat) [MStart 0; MStop 1; MStart 2; MStop 1] in
   rflag s 0 = true /\ rflag s 2 = false /\ m_os s 1%nat = MBridge 0 /\ m_os s 2%nat = MBridge 0.
 Proof. vm_compute. repeat split. Qed.
+
+(* the same as a refinement of the property's own reading of a history (Spec/BridgeHistory.v: two facts are remembered, "running"
+   and "which ports a foreign socket holds").  For every duplicate-free, non-empty port list and every action sequence the model's
+   observations (started / raised / delivered / dropped), its flag and its OS table are exactly those of the history reading:
+   start raises and changes nothing when the bridge runs already or a configured port is taken, otherwise the bridge runs and
+   holds every configured port; stop always ends in "not running, every port given back", repeated or before any start; a
+   stopped bridge starts again; a datagram is delivered exactly while running, on a configured port *)
+Require Import AS.Spec.BridgeHistory AS.Proofs.BridgeRefine.
+Theorem C17_refines_history ports acts : NoDup ports -> ports <> [] ->
+  let s := run false ports acts in let a := fst (a_trace ports a_init acts) in
+  snd (c_trace ports init acts) = snd (a_trace ports a_init acts) /\
+  running s = a_run a /\ forall q, os s q = a_owner ports a q.
+Proof. exact (bridge_refines_history ports acts). Qed.
+Print Assumptions C17_refines_history.
+
+(* the reading at work: port 2 taken -> start raises, nothing held; released -> start succeeds, both ports held, a second start
+   raises and changes nothing; stop twice; start again *)
+Example C17_history_example :
+  let acts := [AOccupy 2; AStart; ASend 1; ARelease 2; AStart; AStart; ASend 1; AStop; AStop; ASend 1; AStart]%nat in
+  snd (a_trace [1; 2]%nat a_init acts) = [ONone; ORaised; ODropped; ONone; OStarted; ORaised; ODelivered; ONone; ONone; ODropped; OStarted] /\
+  a_run (fst (a_trace [1; 2]%nat a_init acts)) = true /\
+  snd (c_trace [1; 2]%nat init acts) = snd (a_trace [1; 2]%nat a_init acts).
+Proof. split; [vm_compute; reflexivity|]. split; [vm_compute; reflexivity|]. apply C17_refines_history; [repeat constructor; cbn; intuition lia|discriminate]. Qed.
